@@ -237,6 +237,7 @@ func VHC19Match() {
 	type caseT struct {
 		alts  []c19Pat
 		block bool
+		bkind int // what the block body holds
 		names []string
 	}
 	var cases []caseT
@@ -268,7 +269,14 @@ func VHC19Match() {
 		}
 		c.names = names
 		if c.block {
-			src += "{ printf('b" + itoa(ci) + "') }"
+			// whatever a block holds - also a single expression statement with a value of
+			// its own, or nothing at all - the match yields null
+			c.bkind = (nid + ci + ncases + nalts) % 5 // varies with the shape of the case list, without multiplying it
+			if vh.Thorough() {
+				c.bkind = vh.Choose("bkind"+itoa(ci), 5)
+			}
+			tag := "printf('b" + itoa(ci) + "')"
+			src += []string{"{ " + tag + " }", "{ " + tag + "; 41 + 1 }", "{ 41 + 1 }", "{ }", "{ blk = 'set'; if (blk) { " + tag + "; 9 } }"}[c.bkind]
 		} else {
 			src += "[" + itoa(ci)
 			for _, id := range names {
@@ -299,7 +307,11 @@ func VHC19Match() {
 			vh.Assert(k == OK, "C19: a matching case must not fail")
 			if c.block {
 				vh.Assert(isNull(cell), "C19: a block body yields null")
-				vh.Assert(out == "b"+itoa(ci), "C19: exactly the body of the first matching case runs")
+				wantOut := "b" + itoa(ci)
+				if c.bkind == 2 || c.bkind == 3 {
+					wantOut = ""
+				}
+				vh.Assert(out == wantOut, "C19: exactly the body of the first matching case runs")
 				return
 			}
 			vh.Assert(out == "", "C19: no other body runs")
